@@ -109,17 +109,15 @@ def check_parse(ctx, tname, s, via="from_string"):
     kind = KIND[tname]
     shape = lx.parse_shape(kind, lx.collapse(s))
     if shape is None:
-        ctx.drop("not-well-shaped (not judged)")
+        # not in the lexical space at all (signs, blanks or non-ASCII digits inside, missing digits, trailing dot ...)
+        check_malformed(ctx, tname, s, via)
         return
     valid = lx.components_valid(kind, shape)
     if shape.get("frac_digits", 0) > 9:
         ctx.drop("more than 9 fraction digits (not judged)")
         return
-    if shape.get("offset") == "invalid":
-        ctx.drop("offset beyond +-14:00 (not judged)")
-        return
     ctx.case(tname, s, via)
-    ctx.feature(f"parse/{tname}/{'valid' if valid else 'invalid'}")
+    ctx.feature(f"parse/{tname}/{'valid' if valid else ('invalid-offset' if shape.get('offset') == 'invalid' else 'invalid')}")
     try:
         if via == "from_string":
             got = T.from_string(s)
@@ -151,6 +149,52 @@ def check_parse(ctx, tname, s, via="from_string"):
 
             if not isinstance(err, ConverterError):
                 ctx.violation(f"reject-wrong-exception/{tname}", f"converter.deserialize({s!r}, [{tname}]) raised {type(err).__name__}", w)
+
+
+def check_malformed(ctx, tname, s, via):
+    T = types()[tname]
+    ctx.case("malformed", tname, s, via)
+    ctx.feature(f"parse/{tname}/malformed")
+    try:
+        if via == "from_string":
+            got = T.from_string(s)
+        else:
+            from xsdata.formats.converter import converter
+
+            got = converter.deserialize(s, [T])
+    except Exception:  # noqa: BLE001
+        return
+    ctx.violation(f"malformed-accepted/{tname}", f"{tname}.{via}({s!r}) accepted a string outside the lexical space of xs:{KIND[tname]} -> {tuple(got)!r} (written back as {str(got)!r})",
+                  {"fn": "parse", "args": [tname, s, via]})
+
+
+def check_hash(ctx, tname, a, b):
+    """Values that compare equal hash equal (sets and dictionaries of time values)."""
+    T = types()[tname]
+    x, y = T(*a), T(*b)
+    ctx.case("hash", tname, tuple(a), tuple(b))
+    try:
+        if x == y and hash(x) != hash(y):
+            ctx.violation(f"hash/{tname}/equal-values-hash-differently", f"{x!r} == {y!r} but their hashes differ: {x!r} in {{{y!r}}} is {x in {y}}", {"fn": "hash", "args": [tname, list(a), list(b)]})
+        ctx.feature(f"hash/{tname}/{'eq' if x == y else 'ne'}")
+    except TypeError:
+        ctx.feature(f"hash/{tname}/unhashable")
+
+
+def check_now(ctx):
+    """now(tz) / utcnow() carry the requested timezone (they are conversions from the standard library clock)."""
+    ctx.case("now", ctx.shard)
+    for tname, T in types().items():
+        if tname not in ("XmlTime", "XmlDateTime"):
+            continue
+        for minutes in (0, 300, -570):
+            tz = dt.timezone(dt.timedelta(minutes=minutes))
+            v = T.now(tz)
+            ctx.feature(f"now/{tname}")
+            if v.offset != minutes:
+                ctx.violation(f"now/{tname}/timezone-dropped", f"{tname}.now({tz!r}).offset = {v.offset!r}, expected {minutes}", {"fn": "now", "args": []})
+        if T.utcnow().offset != 0:
+            ctx.violation(f"now/{tname}/utcnow-without-offset", f"{tname}.utcnow().offset = {T.utcnow().offset!r}, expected 0", {"fn": "now", "args": []})
 
 
 def check_str(ctx, tname, args):
@@ -194,11 +238,11 @@ def check_order(ctx, tname, a, b):
     if (oa is None) != (ob is None):
         ctx.drop("one operand without timezone (indeterminate)")
         return
-    if tname == "XmlTime" and (a[0] == 24) != (b[0] == 24):
-        ctx.drop("time 24:00:00 vs other (not compared)")
-        return
     ctx.case("order", tname, tuple(a), tuple(b))
     ta, tb = timeline(tname, a), timeline(tname, b)
+    if tname == "XmlTime":
+        # xs:time has no day to carry into: 24:00:00 is the value 00:00:00
+        ta, tb = (timeline(tname, [0] + list(a[1:])) if a[0] == 24 else ta), (timeline(tname, [0] + list(b[1:])) if b[0] == 24 else tb)
     x, y = T(*a), T(*b)
     ctx.feature(f"order/{tname}/{'eq' if ta == tb else 'ne'}")
     exp = {"==": ta == tb, "!=": ta != tb, "<": ta < tb, "<=": ta <= tb, ">": ta > tb, ">=": ta >= tb}
@@ -226,7 +270,18 @@ def check_stdlib(ctx, tname, args):
     w = {"fn": "stdlib", "args": [tname, list(args)]}
     v = T(*args)
     try:
-        if tname == "XmlDateTime":
+        if tname == "XmlDateTime" and args[3] == 24:
+            # 24:00:00 is the first instant of the next day
+            d = v.to_datetime()
+            exp = dt.datetime(*args[:3], tzinfo=None if args[7] is None else dt.timezone(dt.timedelta(minutes=args[7]))) + dt.timedelta(days=1)
+            back = T.from_datetime(d)
+            ok = d == exp and d.utcoffset() == exp.utcoffset() and back == v
+        elif tname == "XmlTime" and args[0] == 24:
+            d = v.to_time()
+            exp = dt.time(0, 0, 0, tzinfo=None if args[4] is None else dt.timezone(dt.timedelta(minutes=args[4])))
+            back = T.from_time(d)
+            ok = d == exp and d.utcoffset() == exp.utcoffset() and back == v
+        elif tname == "XmlDateTime":
             d = v.to_datetime()
             exp = dt.datetime(*args[:6], args[6] // 1000, tzinfo=None if args[7] is None else dt.timezone(dt.timedelta(minutes=args[7])))
             back = T.from_datetime(d)
@@ -261,7 +316,13 @@ def check_duration(ctx, s):
 
     exp = lx.parse_duration(s)
     if exp is None:
-        ctx.drop("duration not XSD-valid (not judged)")
+        ctx.case("duration-invalid", s)
+        ctx.feature("duration/invalid")
+        try:
+            v = XmlDuration(s)
+        except Exception:  # noqa: BLE001
+            return
+        ctx.violation("malformed-accepted/XmlDuration", f"XmlDuration({s!r}) accepted a string outside the lexical space of xs:duration -> {v.asdict()}", {"fn": "duration", "args": [s]})
         return
     ctx.case("duration", s)
     ctx.feature("duration/valid")
@@ -295,12 +356,15 @@ def check_period(ctx, s):
     shapes = [(k, lx.parse_shape(k, c)) for k in PERIOD_KINDS]
     shapes = [(k, sh) for k, sh in shapes if sh is not None]
     if not shapes:
-        ctx.drop("period not well-shaped (not judged)")
+        ctx.case("period-malformed", s)
+        ctx.feature("period/malformed")
+        try:
+            v = XmlPeriod(s)
+        except Exception:  # noqa: BLE001
+            return
+        ctx.violation("malformed-accepted/XmlPeriod", f"XmlPeriod({s!r}) accepted a string outside the lexical space of the g* types (kept as {str(v)!r})", {"fn": "period", "args": [s]})
         return
     kind, shape = shapes[0]
-    if shape["offset"] == "invalid":
-        ctx.drop("offset beyond +-14:00 (not judged)")
-        return
     valid = lx.components_valid(kind, shape)
     ctx.case("period", s)
     ctx.feature(f"period/{kind}/{'valid' if valid else 'invalid'}")
@@ -327,7 +391,7 @@ def check_period(ctx, s):
         ctx.violation(f"invalid-accepted/XmlPeriod/{kind}", f"XmlPeriod({s!r}) accepted a string denoting no real {kind}", w)
 
 
-CHECKS = {"parse": check_parse, "str": check_str, "order": check_order, "stdlib": check_stdlib, "duration": check_duration, "period": check_period}
+CHECKS = {"hash": check_hash, "now": lambda ctx: check_now(ctx), "parse": check_parse, "str": check_str, "order": check_order, "stdlib": check_stdlib, "duration": check_duration, "period": check_period}
 
 
 def replay(witness, ctx):
@@ -405,6 +469,49 @@ def run_shard(ctx):
             check_str(ctx, "XmlTime", [13, 20, 0, 0, off])
             check_str(ctx, "XmlDate", [2002, 10, 10, off])
 
+    # B2. strings outside the lexical space, offsets beyond +-14:00, 24:00:00 through the standard library, now()
+    if ctx.shard == 0:
+        check_now(ctx)
+    MALFORMED = ["2021-+1-01", "2021- 1- 1", "+2021-01-01", "\u0662\u0660\u0662\u0661-\u0660\u0661-\u0660\u0661", "2021-01-01T10:-0:+5", "2021-01-01T10:00:00.", "2021-01-01T10:00:00+ 1:-0", "2021-1-01", "2021-01-1",
+                 "2021-01-01T1:00:00", "2021-01-01T10:00", "2021-01-01 10:00:00", "21-01-01", "2021-01-01T10:00:00z", "2021-01-01T10:00:00+1:00", "2021-01-01T10:00:00+01", "2021-01-01T10:00:00+0100", "2021-01-01TT10:00:00", "2021-01-01T10:00:00.1.2",
+                 "2021-01-01T10:00:00Z+01:00", "2021_01_01", "", "T", "2021-01-01T", "2021-01-01T10:00:00\u0660"]
+    for j, m in enumerate(MALFORMED):
+        i += 1
+        if not ctx.mine(i):
+            continue
+        for tname in ("XmlDateTime", "XmlDate", "XmlTime"):
+            txt = m if tname == "XmlDateTime" else (m.split("T")[0] if tname == "XmlDate" else (m.split("T", 1)[1] if "T" in m else m))
+            check_parse(ctx, tname, txt)
+            check_parse(ctx, tname, txt, via="converter")
+    for hh, mm in ((14, 1), (14, 59), (15, 0), (24, 0), (99, 99), (0, 60), (13, 60), (14, 0), (13, 59), (0, 59)):
+        for sign in "+-":
+            i += 1
+            if ctx.mine(i):
+                tzs = f"{sign}{hh:02d}:{mm:02d}"
+                check_parse(ctx, "XmlTime", f"13:20:00{tzs}")
+                check_parse(ctx, "XmlDate", f"2002-10-10{tzs}")
+                check_parse(ctx, "XmlDateTime", f"2002-10-10T13:20:00{tzs}")
+                check_period(ctx, f"2002{tzs}")
+                check_period(ctx, f"--10-10{tzs}")
+    for off in ALL_OFFSETS:
+        i += 1
+        if ctx.mine(i):
+            check_stdlib(ctx, "XmlDateTime", [2021, 12, 31, 24, 0, 0, 0, off])
+            check_stdlib(ctx, "XmlDateTime", [2024, 2, 28, 24, 0, 0, 0, off])
+            check_stdlib(ctx, "XmlTime", [24, 0, 0, 0, off])
+            check_order(ctx, "XmlTime", [24, 0, 0, 0, off], [0, 0, 0, 0, off])
+            check_order(ctx, "XmlTime", [24, 0, 0, 0, off], [0, 0, 1, 0, off])
+            check_order(ctx, "XmlTime", [24, 0, 0, 0, off], [23, 59, 59, 999999999, off])
+            check_hash(ctx, "XmlTime", [24, 0, 0, 0, off], [0, 0, 0, 0, off])
+    for bad in ["--+1", "--- 1", "---1", "--1", "2021-", "-- 1-01", "--01--01", "20 21", "\u0662\u0660\u0662\u0661", "--13-", "---01-", "--01-01-", "2021-01-", "+2021"]:
+        i += 1
+        if ctx.mine(i):
+            check_period(ctx, bad)
+    for bad in ["PT1_5S", "PT1e5S", "P\u0661Y", "P1Y2", "PT", "P", "P1S", "PT1Y", "P1.5Y", "PT1.S", "PT.5S", "P-1Y", "P1YT", "1Y", "P1Y 2M", "PT1H1H", "P1M1Y", "PT1S1M", "+P1Y", "p1y", "PT1,5S"]:
+        i += 1
+        if ctx.mine(i):
+            check_duration(ctx, bad)
+
     # F. durations: all 2^6 component subsets x sign x fractional seconds
     names = ["Y", "M", "D", "H", "Mi", "S"]
     for mask in range(0, 64):
@@ -480,6 +587,8 @@ def run_shard(ctx):
             if off is not None:
                 b[-1] = off2
         check_order(ctx, "XmlDateTime", a, b)
+        if mode in (0, 5, 6):
+            check_hash(ctx, "XmlDateTime", a, b)
         if k % 2 == 0:
             ta = [h, mi, s, ns, off]
             tb = [rng.choice([h, rng.randrange(24)]), rng.choice([mi, rng.randrange(60)]), rng.choice([s, rng.randrange(60)]), rng.choice([ns, 0, ns + 1 if ns < 999999999 else ns]), off2 if off is not None else None]
@@ -489,6 +598,8 @@ def run_shard(ctx):
                     sec, fr = divmod(tl, lx.NS)
                     tb = [sec // 3600, sec % 3600 // 60, sec % 60, fr, off2]
             check_order(ctx, "XmlTime", ta, tb)
+            if k % 8 == 0:
+                check_hash(ctx, "XmlTime", ta, tb)
         # stdlib conversions
         if k % 4 == 0 and 1 <= y <= 9999:
             # stdlib objects carry microseconds: finer fractions are cut off (the documented `microsecond` of the value),
